@@ -373,6 +373,9 @@ def ascii_bound(ctx, rule):
     n = 0
     for pc in nfq.feasible(pcs):
         for k in pc["guards"]:
+            if re.fullmatch(r"p1\.is_ascii\(\)(#\d+)?", k):
+                n += 1  # <[u8]>::is_ascii: all bytes <= 0x7F by definition
+                continue
             m = re.search(r"\.all\(\|\.\.\|\{?\(?(a1 <= (\d+)|a1 < (\d+)|\((\d+) < a1\))", k)
             if m:
                 n += 1
